@@ -289,7 +289,7 @@ block_pt(int idx, uint8_t pt[16])
 static uint64_t
 block_case(int kidx, int bidx, int report)
 {
-	uint8_t key[32], pt[16], want[16], buf[16 + 16 + 16];
+	uint8_t key[32], pt[16], want[16], buf0[16 + 16 + 16];
 	size_t klen = block_key(kidx, key);
 	struct ref_aes rk;
 	struct crypto_aes_key * lk;
@@ -307,19 +307,23 @@ block_case(int kidx, int bidx, int report)
 		if (report) printf("AES-%zu key #%d: crypto_aes_key_expand returned NULL\n", klen * 8, kidx);
 		return (0);
 	}
-	for (mode = 0; mode < 2; mode++) {
-		memset(buf, CANARY, sizeof(buf));
+	/* modes 0/1: the caller's buffers as they come (separate / in place); modes 2/3: both buffers deliberately at 1 mod 16 and 8 mod 16 (the public interface takes any alignment) */
+	for (mode = 0; mode < 4; mode++) {
+		static uint8_t abuf_[16 + 64] __attribute__((aligned(16)));
+		uint8_t * buf = mode < 2 ? buf0 : abuf_ + (mode == 2 ? 1 : 8);	/* canaries at buf[0..16) and buf[32..48), out at buf+16 */
+		memset(buf, CANARY, 48);
 		if (mode == 0) { memcpy(in, pt, 16); out = buf + 16; crypto_aes_encrypt_block(in, out, lk); }
-		else { out = buf + 16; memcpy(out, pt, 16); crypto_aes_encrypt_block(out, out, lk); }
+		else if (mode == 1) { out = buf + 16; memcpy(out, pt, 16); crypto_aes_encrypt_block(out, out, lk); }
+		else { uint8_t * in1 = in_block(1, 16); memcpy(in1, pt, 16); out = buf + 16; crypto_aes_encrypt_block(in1, out, lk); }
 		if (memcmp(out, want, 16) != 0)
-			vf_violation(a_sig(sig, sizeof(sig), "block:value"), rj, "AES-%zu block %s: key #%d, plaintext #%d: library %s, FIPS-197 reference %s", klen * 8, mode ? "in place" : "separate", kidx, bidx,
+			vf_violation(a_sig(sig, sizeof(sig), "block:value"), rj, "AES-%zu block %s: key #%d, plaintext #%d: library %s, FIPS-197 reference %s", klen * 8, mode == 1 ? "in place" : mode == 0 ? "separate" : mode == 2 ? "separate, buffers at 1 mod 16" : "separate, buffers at 8 mod 16", kidx, bidx,
 			    vf_hex(h1, sizeof(h1), out, 16), vf_hex(h2, sizeof(h2), want, 16));
 		{ int i, ok = 1; for (i = 0; i < 16; i++) if (buf[i] != CANARY || buf[32 + i] != CANARY) ok = 0;
 		  if (!ok) vf_violation(a_sig(sig, sizeof(sig), "block:canary"), rj, "crypto_aes_encrypt_block wrote outside out[16] (key #%d, plaintext #%d)", kidx, bidx); }
-		if (report) printf("AES-%zu key #%d plaintext #%d %s: %s (reference %s)\n", klen * 8, kidx, bidx, mode ? "in place" : "separate", vf_hex(h1, sizeof(h1), out, 16), vf_hex(h2, sizeof(h2), want, 16));
+		if (report) printf("AES-%zu key #%d plaintext #%d mode %d: %s (reference %s)\n", klen * 8, kidx, bidx, mode, vf_hex(h1, sizeof(h1), out, 16), vf_hex(h2, sizeof(h2), want, 16));
 	}
 	crypto_aes_key_free(lk);
-	return (2);
+	return (4);
 }
 
 #define BLOCK_KEYS_PER_UNIT 8
